@@ -44,6 +44,10 @@ META = {'design_ref': 'DESIGN.md section 7 / C17',
                'an earlier PUBLISH of the same connection bound to exactly that topic; alias in 1..maximum; none in 3.1.1) is the extracted monitor '
                'mon_c17_out on the implementation trace. D22 (fixed by /repo 10d5c82): before the fix the LRU resolver returned alias 0 for the 65536th '
                'distinct topic when configured with 65535 and the server announced 65535 (alias.rs:206 `(len + 1) as u16`); witness `F 65535` in '
-               'corpus/C17/resolver.txt is a regression case now. D7 (fixed by /repo b059c31): the resolver recorded a binding before last-chance validation.',
+               'corpus/C17/resolver.txt is a regression case now. D7 (fixed by /repo b059c31): the resolver recorded a binding before last-chance validation. '
+               'Engine-level monitors on the implementation trace: mon_c17_out (the server-side alias table reconstructed from the wire gives the submitted '
+               'topic; alias in 1..Topic Alias Maximum of the CONNACK; none under 3.1.1 or maximum 0) and mon_c17_in (a publish accepted with an alias has it '
+               'in 1..the maximum the CONNECT announced, an empty topic refers to an alias bound on this connection, and the message is surfaced with the '
+               'topic that table gives).',
  'technique': 'machine-checked proof in Coq (induction over resolver operation histories; engine handler theorems) + lock-step correspondence + extracted '
               'monitor on the implementation trace'}
